@@ -347,8 +347,24 @@ class TableSys(GenericSys):
         u = self.units
         self.rows = self.ROWS[:n]
         self.convs = []
+        from quantity.converter import Converter
+
+        class Forward(Converter):
+            """a hand-written converter: answers the tabulated direction
+            and leaves everything else to the base class"""
+
+            def __init__(self, rows):
+                self.rows = rows
+
+            def _get_factor(self, qty, to_unit):
+                fo = self.rows.get((u.index(qty.unit), u.index(to_unit)))
+                if fo is None:
+                    return super()._get_factor(qty, to_unit)
+                return qty.amount * fo[0] + fo[1]
         for i, rows in enumerate(self.rows):
-            if i % 2:
+            if i == 1:
+                self.convs.append(Forward(rows))
+            elif i % 2:
                 self.convs.append(TableConverter(
                     [(u[a], u[b], f, o) for (a, b), (f, o) in rows.items()]))
             else:
@@ -364,6 +380,8 @@ class TableSys(GenericSys):
         if (a, b) in rows:
             f, o = rows[(a, b)]
             return x * f + o
+        if i == 1:
+            return None         # the hand-written one does not invert
         if (b, a) in rows:
             f, o = rows[(b, a)]
             return (x - o) / F(f)
